@@ -29,7 +29,10 @@ mutual
 def HasTyR (st : StructTable) : Ty → RExp → Prop
   | t, .lit j => LitOk st t j
   | t, .arr xs => t.arrDim ≠ 0 ∧ HasTyRList st { t with arrDim := t.arrDim - 1 } xs
-  | t, .map kvs => t.arrDim = 0 ∧ t.mapDim ≠ 0 ∧ HasTyRFields st ⟨t.base, 0, t.mapDim - 1⟩ kvs
+  | t, .map kvs =>
+    (t.arrDim = 0 ∧ t.mapDim ≠ 0 ∧ HasTyRFields st ⟨t.base, 0, t.mapDim - 1⟩ kvs) ∨
+    -- a reference-free literal where an untyped `map` is expected
+    (t.arrDim = 0 ∧ t.mapDim = 0 ∧ st.lookup t.base = none ∧ jsonRFields kvs = true)
   | t, .struct kvs => t.arrDim = 0 ∧ t.mapDim = 0 ∧
       ∃ ps, st.lookup t.base = some ps ∧ HasTyRMembers st ps kvs ∧ ∀ p ∈ ps, (kvs.lookup p.name).isSome
   | t, .ref _ sty path => Sub st (pathTy st sty path) t
@@ -205,6 +208,80 @@ theorem mem_filterMap_members {α : Type} (ps : List Param) (g : Param → Optio
 
 /-! ## L0: the static filter is invisible to the typed run-time evaluation -/
 
+/-! ## reference-free JSON literals at an opaque type (the untyped `map`) -/
+
+mutual
+/-- the typed evaluation of a reference-free literal at an opaque type is the literal -/
+theorem evalRT_json (st : StructTable) (nf : Nat) (ρ : Store) :
+    ∀ (e : RExp) (t : Ty) (f : ForkAssign), jsonR e = true → t.mapDim = 0 → st.lookup t.base = none →
+      evalRT st nf ρ f t e = evalR st ρ f e
+  | .lit j, _, _, _, _, _ => by simp [evalRT, evalR]
+  | .arr xs, t, f, h, hm, hl => by
+    simp only [jsonR] at h
+    simp only [evalRT, evalR]
+    rw [evalRT_jsonList st nf ρ xs { t with arrDim := t.arrDim - 1 } f h hm hl]
+  | .map kvs, t, f, h, hm, hl => by
+    simp only [jsonR] at h
+    have c : (t.arrDim == 0 && t.mapDim != 0) = false := by simp [hm]
+    simp only [evalRT, evalR, c, Bool.false_eq_true, if_false, hl]
+    rw [evalRT_jsonFields st nf ρ kvs ⟨t.base, 0, 0⟩ f h rfl hl]
+  | .struct _, _, _, h, _, _ => by simp [jsonR] at h
+  | .ref _ _ _, _, _, h, _, _ => by simp [jsonR] at h
+  | .split _ _ _, _, _, h, _, _ => by simp [jsonR] at h
+  | .merge _ _ _, _, _, h, _, _ => by simp [jsonR] at h
+  | .disabled _ _, _, _, h, _, _ => by simp [jsonR] at h
+  | .fork _ _ _, _, _, h, _, _ => by simp [jsonR] at h
+theorem evalRT_jsonList (st : StructTable) (nf : Nat) (ρ : Store) :
+    ∀ (es : List RExp) (t : Ty) (f : ForkAssign), jsonRList es = true → t.mapDim = 0 → st.lookup t.base = none →
+      evalRTList st nf ρ f t es = evalRList st ρ f es
+  | [], _, _, _, _, _ => by simp [evalRTList, evalRList]
+  | e :: es, t, f, h, hm, hl => by
+    simp only [jsonRList, Bool.and_eq_true] at h
+    simp only [evalRTList, evalRList, evalRT_json st nf ρ e t f h.1 hm hl, evalRT_jsonList st nf ρ es t f h.2 hm hl]
+theorem evalRT_jsonFields (st : StructTable) (nf : Nat) (ρ : Store) :
+    ∀ (es : List (String × RExp)) (t : Ty) (f : ForkAssign), jsonRFields es = true → t.mapDim = 0 →
+      st.lookup t.base = none → evalRTFields st nf ρ f t es = evalRFields st ρ f es
+  | [], _, _, _, _, _ => by simp [evalRTFields, evalRFields]
+  | (k, e) :: es, t, f, h, hm, hl => by
+    simp only [jsonRFields, Bool.and_eq_true] at h
+    simp only [evalRTFields, evalRFields, evalRT_json st nf ρ e t f h.1 hm hl,
+      evalRT_jsonFields st nf ρ es t f h.2 hm hl]
+end
+
+mutual
+/-- a reference-free literal denotes the same value in every fork assignment -/
+theorem evalR_json_indep (st : StructTable) (ρ : Store) (f g : ForkAssign) :
+    ∀ e : RExp, jsonR e = true → evalR st ρ f e = evalR st ρ g e
+  | .lit j, _ => by simp [evalR]
+  | .arr xs, h => by simp only [jsonR] at h; simp only [evalR, evalR_json_indepList st ρ f g xs h]
+  | .map kvs, h => by simp only [jsonR] at h; simp only [evalR, evalR_json_indepFields st ρ f g kvs h]
+  | .struct _, h => by simp [jsonR] at h
+  | .ref _ _ _, h => by simp [jsonR] at h
+  | .split _ _ _, h => by simp [jsonR] at h
+  | .merge _ _ _, h => by simp [jsonR] at h
+  | .disabled _ _, h => by simp [jsonR] at h
+  | .fork _ _ _, h => by simp [jsonR] at h
+theorem evalR_json_indepList (st : StructTable) (ρ : Store) (f g : ForkAssign) :
+    ∀ es : List RExp, jsonRList es = true → evalRList st ρ f es = evalRList st ρ g es
+  | [], _ => rfl
+  | e :: es, h => by
+    simp only [jsonRList, Bool.and_eq_true] at h
+    simp only [evalRList, evalR_json_indep st ρ f g e h.1, evalR_json_indepList st ρ f g es h.2]
+theorem evalR_json_indepFields (st : StructTable) (ρ : Store) (f g : ForkAssign) :
+    ∀ es : List (String × RExp), jsonRFields es = true → evalRFields st ρ f es = evalRFields st ρ g es
+  | [], _ => rfl
+  | (k, e) :: es, h => by
+    simp only [jsonRFields, Bool.and_eq_true] at h
+    simp only [evalRFields, evalR_json_indep st ρ f g e h.1, evalR_json_indepFields st ρ f g es h.2]
+end
+
+/-- … hence the typed evaluation at any two opaque types, in any two fork assignments -/
+theorem evalRT_json_eq (st : StructTable) (nf : Nat) (ρ : Store) (e : RExp) (t t' : Ty) (f g : ForkAssign)
+    (h : jsonR e = true) (hm : t.mapDim = 0) (hl : st.lookup t.base = none)
+    (hm' : t'.mapDim = 0) (hl' : st.lookup t'.base = none) :
+    evalRT st nf ρ f t e = evalRT st nf ρ g t' e := by
+  rw [evalRT_json st nf ρ e t f h hm hl, evalRT_json st nf ρ e t' g h hm' hl', evalR_json_indep st ρ f g e h]
+
 section L0
 variable (st : StructTable) (hst : StructsOk st) (nf : Nat) (ρ : Store) (f : ForkAssign)
 include hst
@@ -229,15 +306,19 @@ theorem evalRT_filterR :
     · exact ⟨rfl, by simp only [HasTyR]; exact h⟩
   | .map kvs, t, h => by
     simp only [HasTyR] at h
-    obtain ⟨ha, hm, hk⟩ := h
-    have c1 : (t.arrDim == 0 && t.mapDim == 0) = false := by simp [ha, hm]
-    simp only [filterR, c1, Bool.false_eq_true, ↓reduceIte]
-    split
-    · have := evalRT_filterRFields kvs _ hk
-      have c2 : (t.arrDim == 0 && t.mapDim != 0) = true := by simp [ha, hm]
-      simp only [evalRT, c2, if_true, this.1, HasTyR]
-      exact ⟨trivial, ha, hm, this.2⟩
-    · exact ⟨rfl, by simp only [HasTyR]; exact ⟨ha, hm, hk⟩⟩
+    rcases h with ⟨ha, hm, hk⟩ | ⟨ha, hm, hl, hj⟩
+    · have c1 : (t.arrDim == 0 && t.mapDim == 0) = false := by simp [ha, hm]
+      simp only [filterR, c1, Bool.false_eq_true, ↓reduceIte]
+      split
+      · have := evalRT_filterRFields kvs _ hk
+        have c2 : (t.arrDim == 0 && t.mapDim != 0) = true := by simp [ha, hm]
+        simp only [evalRT, c2, if_true, this.1, HasTyR]
+        exact ⟨trivial, Or.inl ⟨ha, hm, this.2⟩⟩
+      · exact ⟨rfl, by simp only [HasTyR]; exact Or.inl ⟨ha, hm, hk⟩⟩
+    · have c1 : (t.arrDim == 0 && t.mapDim == 0) = true := by simp [ha, hm]
+      have e' : filterR st t (.map kvs) = .map kvs := by simp [filterR, c1, hl]
+      rw [e']
+      exact ⟨rfl, by simp only [HasTyR]; exact Or.inr ⟨ha, hm, hl, hj⟩⟩
   | .struct kvs, t, h => by
     simp only [HasTyR] at h
     obtain ⟨ha, hm, ps, hl, hmem, hall⟩ := h
